@@ -324,6 +324,12 @@ class VariableRangeAnalysis(IRAnalysis):
         if isinstance(lhs, IRVariable) and isinstance(rhs, IRLiteral):
             current = state.get(lhs, ValueRange.top())
             bound = wrap256(rhs.value, signed=signed)
+            # a range extending above SIGNED_MAX holds words which are
+            # negative in the signed reading; narrowing it with signed
+            # bounds would be unsound.
+            if signed and not current.is_top and not current.is_empty:
+                if current.hi > SIGNED_MAX:
+                    return state
             # For unsigned comparisons with ranges that could include negatives
             if not signed and (current.is_top or current.lo < 0):
                 # Check if this is a "safe" narrowing case
@@ -343,6 +349,9 @@ class VariableRangeAnalysis(IRAnalysis):
         elif isinstance(lhs, IRLiteral) and isinstance(rhs, IRVariable):
             current = state.get(rhs, ValueRange.top())
             bound = wrap256(lhs.value, signed=signed)
+            if signed and not current.is_top and not current.is_empty:
+                if current.hi > SIGNED_MAX:
+                    return state
             # Same logic but with left_side=False (bound on left of comparison)
             # lt: bound < var, so var > bound => gt semantics for var
             # gt: bound > var, so var < bound => lt semantics for var
